@@ -35,6 +35,7 @@ pub mod cbc {
                 },
         { unimplemented!() }
     }
+    impl<T> Receiver<T> { pub uninterp spec fn chan(&self) -> int; }
     pub uninterp spec fn recv_remaining<T>(it: &RecvIter<T>) -> Seq<T>;
     /// the (finite, unknown) sequence of messages a receiver will deliver until the channel closes
     pub uninterp spec fn recv_remaining_of<T>(r: &Receiver<T>) -> Seq<T>;
